@@ -9,14 +9,20 @@ Open Scope string_scope.
 Definition coerce_fn_of_class (c : sclass) : string :=
   match c with SBool => "CoerceBool" | SInt => "CoerceInt64" | SUint => "CoerceUint64" | SF32 => "CoerceFloat32" | SF64 => "CoerceFloat64"
              | SString | SNone => "<the literal as written>" end.
-Definition eq_fn_of_class (c : sclass) : string :=
-  match c with SBool => "doEqualBool" | SInt => "doEqualInt64" | SUint => "doEqualUint64" | SF32 => "doEqualFloat32" | SF64 => "doEqualFloat64"
-             | SString => "doEqualString" | SNone => "nil" end.
-Definition table_or_default (k : string) (l : list (string * string)) : option string :=
-  match assoc k l with Some v => Some v | None => assoc "default" l end.
 Lemma coercion_dispatch : forall k, table_or_default (kind_go k) go_coerce_of_kind = Some (coerce_fn_of_class (sclass_of k)).
 Proof. intros []; reflexivity. Qed.
-Lemma equality_dispatch : forall k, table_or_default (kind_go k) go_equality_fn = Some (eq_fn_of_class (sclass_of k)).
+(* kind -> comparison function (the function from a reflect.Kind to a function value, found by its signature): kinds share a
+   comparison function exactly when they are in one scalar class, and it is nil exactly for the kinds that are not scalars.
+   The comparison functions' names are not prescribed. *)
+Definition sclass_eqb (a b : sclass) : bool :=
+  match a, b with SBool, SBool | SInt, SInt | SUint, SUint | SF32, SF32 | SF64, SF64 | SString, SString | SNone, SNone => true | _, _ => false end.
+Definition ostr_eqb (a b : option string) : bool :=
+  match a, b with Some x, Some y => String.eqb x y | None, None => true | _, _ => false end.
+Lemma equality_dispatch : forall k1 k2,
+  ostr_eqb (table_or_default (kind_go k1) go_equality_fn) (table_or_default (kind_go k2) go_equality_fn) = sclass_eqb (sclass_of k1) (sclass_of k2).
+Proof. intros [] []; reflexivity. Qed.
+Lemma equality_nil_for_non_scalars : forall k,
+  ostr_eqb (table_or_default (kind_go k) go_equality_fn) (Some "nil") = sclass_eqb (sclass_of k) SNone.
 Proof. intros []; reflexivity. Qed.
 
 (* the strconv call behind each Coerce* function: function, base, bit size - what `coerce` calls *)
